@@ -130,6 +130,10 @@ def ill_cases(rng):
     for how in ("rebalance", "allocate", "transact"):
         for price in ("nan", "zero"):
             out.append({"cls": "trade-at-missing-price", "how": how, "price": price, "when": rng.randint(1, T - 1)})
+            # ... with fractional positions (no whole-unit rounding stands between a NaN quantity and the books), as the first trade
+            # ever in the name (it is created and caught up on the spot) and as a re-entry the day after the position was closed
+            for state in ("first", "reentry"):
+                out.append({"cls": "trade-at-missing-price", "how": how, "price": price, "when": rng.randint(2, T - 1), "integer": False, "state": state})
     for short in (False, True):
         for integer in (False, True):
             out.append({"cls": "missing-price-on-open-position", "gap": rng.randint(2, T - 1), "short": short, "integer": integer})
@@ -169,9 +173,17 @@ def run_ill(ctx, bt, c):
             data = pd.DataFrame({"x": px, "y": [20.0] * T}, index=dates)
             data.loc[dates[c["when"]], "x"] = bad
             s = core.Strategy("s", children=["x", "y"])
+            if "integer" in c:
+                s.use_integer_positions(c["integer"])
             s.setup(data)
             s.adjust(10000.0)
             s.update(dates[0])
+            if c.get("state") == "reentry":
+                s.update(dates[c["when"] - 1])
+                s.allocate(1000.0, "x")
+                s.update(dates[c["when"] - 1])
+                s.close("x")
+                s.update(dates[c["when"] - 1])
             s.update(dates[c["when"]])
             if c["how"] == "rebalance":
                 s.rebalance(0.5, "x")
